@@ -180,6 +180,23 @@ Example C01_check_rejects_use_before_check :
 Proof. vm_compute. split; reflexivity. Qed.
 Print Assumptions C01_check_rejects_use_before_check.
 
-(* To be linked when installed (other properties' developments):
-     C16  Proofs/RetreeParseFacts.v   parse_total   : forall vs, parse vs <> Crash _
-   See docs/C01.md. *)
+(** ** Linked from C16: the regular-expression parser never raises.
+
+    [_verify_patterns_anchored_at_start_and_end] and [pattern_verification] reach
+    [parse/retree/_parse.py:parse] with arbitrary user strings. The model
+    ([Model/RetreeParse.v]) and the proof ([Proofs/RetreeTotal.v]) belong to C16 (where
+    the model is also tied to the code); re-stated here over the escape tables
+    regenerated from the source on this run. *)
+From Acg Require Import Model.Retree Model.RetreeParse Proofs.RetreeTotal Gen.GenRetreeTables.
+
+Definition retree_tables : tables :=
+  mkTables gen_lit_simple gen_lit_unsupported gen_lit_assert gen_lit_stop
+           gen_rng_simple gen_rng_unsupported gen_esc_lit gen_esc_rng.
+
+Theorem C01_gen_retree_tables_ok : tables_total_ok retree_tables = true.
+Proof. vm_compute. reflexivity. Qed.
+Print Assumptions C01_gen_retree_tables_ok.
+
+Theorem C01_parse_total : forall s : text, is_crash (parse_string retree_tables s) = false.
+Proof. exact (parse_string_total retree_tables C01_gen_retree_tables_ok). Qed.
+Print Assumptions C01_parse_total.
